@@ -14,6 +14,9 @@ def run(m):
     try:
         dst=os.path.join(tmp,'repo')
         subprocess.check_call(['rsync','-a','--exclude','.git','/repo/',dst+'/'])
+        if m.get('base'):
+            r=subprocess.run(['patch','-p1','-s','-f','-i',os.path.join('/verif/mutants',m['base'])],cwd=dst,capture_output=True,text=True)
+            if r.returncode!=0: return m['id'],'BASE-NOAPPLY',r.stdout[-200:]
         p=os.path.join(dst,m['file']); s=open(p).read()
         if s.count(m['old'])!=1: return m['id'],'ANCHOR(%d)'%s.count(m['old']),''
         open(p,'w').write(s.replace(m['old'],m['new']))
@@ -37,5 +40,5 @@ def run(m):
 sel=[m for m in cat if not only or only in m['id']]
 with cf.ThreadPoolExecutor(8) as ex:
     for id,suite,res in ex.map(run,sel):
-        flag='  ' if not any(x in (suite+res) for x in ('MISSED','FALSE-ALARM','NOBUILD','ANCHOR','SUITE-FAIL','ANALYSIS')) else '!!'
+        flag='  ' if not any(x in (suite+res) for x in ('MISSED','FALSE-ALARM','NOBUILD','ANCHOR','SUITE-FAIL','ANALYSIS','BASE-NOAPPLY')) else '!!'
         print(flag,id,suite,res,flush=True)
